@@ -10,33 +10,49 @@ PID = "C13"
 CLAIM = dict(
     design="3/C13",
     technique="Lean 4 proof over an executable model of StaticCalculator.__init__/__call__ (Fermi bins, stencils, /nk, "
-              "k_resolved) and of Data_K.get_bands_in_range_groups_ik; the model is tied to the code by running the REAL "
-              "StaticCalculator on duck-typed Data_K / Formula objects with dyadic energies and integer traces; property "
+              "k_resolved, constant_factor / cell_volume / hole_like / use_factor, additive and non-additive value "
+              "assembly) and of Data_K.get_bands_in_range_groups_ik; the model is tied to the code by running the REAL "
+              "StaticCalculator on a Data_K subclass / Formula objects with dyadic energies and integer traces; property "
               "oracle on real systems and real calculators (CumDOS, DOS, AHC, Ohmic_*, Morb formula, a user Formula)",
     text="Theorems (all band counts, energies, thresholds, uniform Fermi grids of any spacing/count/offset incl. a "
-         "single point, any formula values): ceil((E-EFmin)/d) <= j <=> E <= EFmin + j d, hence restot[j] = sum of the "
-         "values of exactly the groups with (mean) energy <= Ef_j, lumped group of lower bands included, each group "
-         "whole; CumDOS of a k-point is non-decreasing, 0 below all bands, NB above (every band in exactly one counted "
-         "group), reported CumDOS = k-average; for fder=1,2,3 the result equals the code's stencil of the fder=0 "
-         "calculator on the grid extended by extraEf points (lumped group cancels) and in closed form the 1st/2nd/"
-         "5-point-3rd central difference with step dEF of the sea step sum at Ef_j; mean over k of the k-resolved "
-         "result = unresolved result.",
+         "single point, any formula values): ceil((E-EFmin)/d) <= j <=> E <= EFmin + j d (a state exactly on a Fermi "
+         "level is counted at it), hence restot[j] = sum of the values of exactly the groups with (mean) energy <= "
+         "Ef_j, lumped group of lower bands included, each group whole; CumDOS of a k-point is non-decreasing, 0 below "
+         "all bands, NB above (every band in exactly one counted group), reported CumDOS = k-average; for fder=1,2,3 the "
+         "result equals the code's stencil of the fder=0 calculator on the grid extended by extraEf points (lumped "
+         "group cancels) and in closed form the 1st/2nd/5-point-3rd central difference with step dEF of the sea step "
+         "sum at Ef_j; mean over k of the k-resolved result = unresolved result; reported number = constant_factor_eff "
+         "/ (nk cell_volume) x stencil(k-sum), _DOS classes are cell_volume-free, hole_like (no tetrahedra) is exactly a "
+         "sign flip of the sea result and a no-op for fder>=1; additive and non-additive value assembly agree for "
+         "additive traces; the group dictionary depends on the sea flag (any memoisation must key on it); the Uniform "
+         "hypothesis is necessary (explicit non-uniform counterexample).",
     note="'summed over k' is read as the BZ average: the code divides the unresolved result by nk and not the resolved "
-         "one.  Trusted: Lean kernel + Mathlib; float ceil at exact bin edges; additivity of each formula "
-         "(formula.additive) is the code's own assertion; constant_factor / cell_volume are overall scalars.",
+         "one.  Non-uniform Fermi grids are outside the property: the code bins with dEF=Efermi[1]-Efermi[0], e.g. "
+         "Efermi=[lo-1, lo-0.9, hi+1] gives CumDOS=0 at the last level although all bands are below it (theorem "
+         "nonuniform_grid_miscounts; a probe records the real-code witness in evidence.notes).  Trusted: Lean kernel + "
+         "Mathlib; float ceil at exact bin edges (with a non-dyadic spacing fl((E-EFmin)/dEF) can land just above the "
+         "integer and move a state that sits exactly on a Fermi level to the next bin); additivity of each formula "
+         "(formula.additive) is the code's own assertion.",
 )
 TRUSTED = [
-    "modelled: StaticCalculator.__init__ (extraEf, dEF incl. the 0.001 single-point default, EFmin, EFmax, nEF_extra), "
-    "the non-tetra branch of __call__ (E<EFmin / E<=EFmax / iEf=ceil, restot[iEf:] +=, stencils for fder 1-3, /nk, "
-    "k_resolved), get_bands_in_range_groups_ik (window groups, mean energy, select_bands filter, lumped sea group), "
-    "weight_select_bands",
-    "not modelled (oracle only): the formulas (trace values are inputs of the model), the additive / non-additive value "
-    "assembly, EnergyResult / K__Result packaging, run() glue, hole_like, smoothers, the tetra branch (C14)",
+    "modelled: StaticCalculator.__init__ (extraEf, dEF incl. the 0.001 single-point default, EFmin, EFmax, nEF_extra, "
+    "hole_like sign of constant_factor), the non-tetra branch of __call__ (E<EFmin / E<=EFmax / iEf=ceil, restot[iEf:] "
+    "+=, stencils for fder 1-3, /cell_volume, /nk, constant_factor or its sign, k_resolved, the additive / "
+    "non-additive assembly of group values), _DOS.__call__ (x cell_volume), get_bands_in_range_groups_ik (window "
+    "groups, mean energy, select_bands filter, lumped sea group), weight_select_bands",
+    "not modelled (oracle only): the formulas themselves (trace values are inputs of the model), EnergyResult / "
+    "K__Result packaging, run() glue, smoothers, the tetra branch (C14)",
+    "hidden state: the model's group dictionary is a pure function of (energies, emin, emax, thresh, Kramers, sea, "
+    "select_bands); the correspondence queries ONE Data_K object repeatedly (same window with sea and surface in both "
+    "orders) and the oracle evaluates calculators on a shared Data_K in both orders and alone",
     "exact comparisons in the model vs float comparisons in the code: correspondence inputs are dyadic so ties are hit "
-    "exactly; the oracle keeps Fermi levels 1e-9 away from group energies",
+    "exactly (single-point grids, whose spacing 0.001 is not dyadic, are kept off exact ties); the float oracle keeps "
+    "Fermi levels 1e-9 away from group energies, the exact-ties oracle uses dyadic grids",
+    "non-uniform Fermi grids: outside the quantifier of the property; the code silently assumes uniformity",
 ]
 RULE = ("correspondence: band arrays with multiplets, windows cutting multiplets, Fermi grids with bin edges exactly on "
-        "group energies, fder 0-3, 1-4 k-points, additive and non-additive fake formulas; oracle: random hermitian "
+        "group energies, fder 0-3, 1-4 k-points, additive and non-additive fake formulas, random constant_factor / "
+        "cell_volume / hole_like / use_factor, query histories on one Data_K; oracle: random hermitian "
         "systems (plain and spin-doubled), uniform Fermi grids of 1-7 points with spacing 1e-3..1 placed across, below "
         "and above the bands, degen_thresh 1e-8..0.3, band selections; non-trivial = some band energy inside the "
         "(extended) Fermi window; distinct = distinct (kind, system seed, grid, options)")
@@ -50,15 +66,18 @@ EPS = 2.0 ** -52
 def fake_classes():
     from wannierberri.data_K.data_K import Data_K
 
-    class FakeDK:
-        get_bands_in_range_groups_ik = Data_K.get_bands_in_range_groups_ik
-        get_bands_in_range_groups = Data_K.get_bands_in_range_groups
+    def _init(self, E, vol=1.0):
+        # bypasses Data_K.__init__ (needs a System); everything StaticCalculator reads is set in the instance dict,
+        # which takes precedence over the cached properties of the class
+        self.__dict__["E_K"] = np.array(E, dtype=float)
+        self.__dict__["nk"] = self.__dict__["E_K"].shape[0]
+        self.__dict__["num_wann"] = self.__dict__["E_K"].shape[1]
+        self.__dict__["cell_volume"] = vol
+        self.__dict__["force_internal_terms_only"] = False
 
-        def __init__(self, E, vol=1.0):
-            self.E_K = np.array(E, dtype=float)
-            self.nk, self.num_wann = self.E_K.shape
-            self.cell_volume = vol
-            self.force_internal_terms_only = False
+    ns = {name: (lambda self, *a, **k: None) for name in getattr(Data_K, "__abstractmethods__", ())}
+    ns["__init__"] = _init
+    FakeDK = type("FakeDK", (Data_K,), ns)
 
     class FakeFormula:
         """trace(ik, inn, out) = table(ik, first band, last band + 1) (an integer), times (1,2,-1) for ndim=1"""
@@ -116,7 +135,7 @@ def corr(ctx):
     lines, checks = [], []
 
     # (a) bin index -------------------------------------------------------------------------------
-    for it in range(ctx.n(150, 1500)):
+    for it in range(ctx.n(80, 1500)):
         d = Fr(rng.choice([1, 3, 5]), rng.choice([1, 4, 16, 1024]))
         efmin = Fr(rng.randint(-64, 64), 16)
         E = efmin + d * rng.randint(0, 9) + rng.choice([Fr(0), Fr(0), d / 2, d / 1024, -d / 1024 + d, Fr(1, 8)])
@@ -125,37 +144,55 @@ def corr(ctx):
         checks.append(("ief", len(lines) - 1, got, dict(EFmin=float(efmin), dEF=float(d), E=float(E))))
         ctx.count("corr.ief")
 
-    # (b) group dictionaries ------------------------------------------------------------------------
-    for it in range(ctx.n(150, 1500)):
+    # (b) group dictionaries: several queries on ONE Data_K object (the dictionary must be a function of all its
+    #     arguments - sea and surface calculators of the same window, in both orders, band selections, thresholds)
+    for it in range(ctx.n(30, 500)):
         E, th = gen_bands(rng)
-        kr = rng.random() < 0.3
-        if kr and len(E) % 2:
+        kr0 = rng.random() < 0.3
+        if kr0 and len(E) % 2:
             E = E + [E[-1] + 1]
         nb = len(E)
+        fk = FakeDK([[float(e) for e in E]])
         emin = rng.choice(E) + rng.choice([Fr(0), -th / 2, th / 2, Fr(-1, 4), Fr(-3)])
         emax = emin + rng.choice([Fr(0), th, Fr(1, 2), Fr(2), Fr(6)])
-        sea = rng.random() < 0.5
-        sel = None
-        if not sea and rng.random() < 0.4:
-            sel = sorted(rng.sample(range(nb), rng.randint(1, nb)))
-        fk = FakeDK([[float(e) for e in E]])
-        case = dict(E=[float(e) for e in E], emin=float(emin), emax=float(emax), degen_thresh=float(th), degen_Kramers=kr,
-                    sea=sea, select_bands=sel)
-        with ctx.attempt("get_bands_in_range_groups_ik", case):
-            got = fk.get_bands_in_range_groups_ik(0, float(emin), float(emax), degen_thresh=float(th), degen_Kramers=kr,
-                                                  sea=sea, select_bands=None if sel is None else np.array(sel))
-            lines.append(f"groups {rats(E)} {rat(th)} {int(kr)} {rat(emin)} {rat(emax)} {int(sea)} "
-                         f"{'none' if sel is None else ints(sel)}")
-            checks.append(("groups", len(lines) - 1, got, case))
-            ctx.count(f"corr.groups.{'sea' if sea else 'surf'}{'.sel' if sel else ''}")
-        if sel is not None:
-            a = rng.randint(0, nb - 1)
-            b = rng.randint(a + 1, nb)
-            lines.append(f"wsel {ints(sel)} {a} {b}")
-            checks.append(("wsel", len(lines) - 1, float(weight_select_bands(a, b, np.array(sel))), dict(sel=sel, a=a, b=b)))
+        queries = []
+        for q in range(rng.randint(2, 5)):
+            if q and rng.random() < 0.5:
+                emin_q, emax_q = emin, emax          # same window again
+            else:
+                emin_q = rng.choice(E) + rng.choice([Fr(0), -th / 2, th / 2, Fr(-1, 4), Fr(-3)])
+                emax_q = emin_q + rng.choice([Fr(0), th, Fr(1, 2), Fr(2), Fr(6)])
+            sea = rng.random() < 0.5
+            sel = None
+            if not sea and rng.random() < 0.4:
+                sel = sorted(rng.sample(range(nb), rng.randint(1, nb)))
+            th_q = th if rng.random() < 0.7 else th * 2
+            queries.append((emin_q, emax_q, sea, sel, th_q, kr0))
+        if rng.random() < 0.5:   # the T-C13 pattern and its mirror image
+            queries = [(emin, emax, False, None, th, kr0), (emin, emax, True, None, th, kr0)] + queries
+        else:
+            queries = [(emin, emax, True, None, th, kr0), (emin, emax, False, None, th, kr0)] + queries
+        for iq, (emin_q, emax_q, sea, sel, th_q, kr) in enumerate(queries):
+            case = dict(E=[float(e) for e in E], emin=float(emin_q), emax=float(emax_q), degen_thresh=float(th_q),
+                        degen_Kramers=kr, sea=sea, select_bands=sel, query_number_on_this_Data_K=iq,
+                        earlier_queries=[(float(a), float(b), c, d, float(e_)) for a, b, c, d, e_, _ in queries[:iq]])
+            with ctx.attempt("get_bands_in_range_groups (shared Data_K)", case):
+                got = fk.get_bands_in_range_groups(float(emin_q), float(emax_q), degen_thresh=float(th_q),
+                                                   degen_Kramers=kr, sea=sea,
+                                                   select_bands=None if sel is None else np.array(sel))[0]
+                lines.append(f"groups {rats(E)} {rat(th_q)} {int(kr)} {rat(emin_q)} {rat(emax_q)} {int(sea)} "
+                             f"{'none' if sel is None else ints(sel)}")
+                checks.append(("groups", len(lines) - 1, dict(got), case))
+                ctx.count(f"corr.groups.{'sea' if sea else 'surf'}{'.sel' if sel else ''}")
+            if sel is not None:
+                a = rng.randint(0, nb - 1)
+                b = rng.randint(a + 1, nb)
+                lines.append(f"wsel {ints(sel)} {a} {b}")
+                checks.append(("wsel", len(lines) - 1, float(weight_select_bands(a, b, np.array(sel))),
+                               dict(sel=sel, a=a, b=b)))
 
     # (c) __init__ parameters and the whole __call__ -------------------------------------------------
-    for it in range(ctx.n(150, 1200)):
+    for it in range(ctx.n(90, 1200)):
         nk = rng.choice([1, 2, 2, 4])
         nb = rng.randint(1, 6)
         th = Fr(rng.choice([1, 3]), rng.choice([16, 64]))
@@ -190,14 +227,20 @@ def corr(ctx):
         def value(ik, a, b):
             return table(ik, a, b) if additive else T(ik, b) - T(ik, a)
 
-        fk = FakeDK([[float(e) for e in E] for E in Es], vol=1.0)
+        vol = Fr(rng.choice([1, 1, 2, 3, 5]), rng.choice([1, 2, 4]))
+        cf = Fr(rng.choice([1, 1, -1, 3, -5, 7]), rng.choice([1, 2, 8]))
+        hole = rng.random() < 0.3
+        usef = rng.random() < 0.8
+        fk = FakeDK([[float(e) for e in E] for E in Es], vol=float(vol))
         Ef_f = np.array([float(x) for x in Ef])
         case = dict(E=fk.E_K, Efermi=Ef_f, fder=fder, degen_thresh=float(th), degen_Kramers=kr, additive=additive,
-                    ndim=ndim, k_resolved=kres, select_bands=sel, salt=salt)
+                    ndim=ndim, k_resolved=kres, select_bands=sel, salt=salt, cell_volume=float(vol),
+                    constant_factor=float(cf), hole_like=hole, use_factor=usef)
         with ctx.attempt("StaticCalculator on duck-typed Data_K", case):
             calc = StaticCalculator(Efermi=Ef_f, Formula=FakeFormula, fder=fder,
                                     kwargs_formula=dict(table=table, ndim=ndim, additive=additive), k_resolved=kres,
-                                    degen_thresh=float(th), degen_Kramers=kr,
+                                    degen_thresh=float(th), degen_Kramers=kr, constant_factor=float(cf),
+                                    hole_like=hole, use_factor=usef,
                                     select_bands=None if sel is None else np.array(sel))
             lines.append(f"params {fder} {rats(Ef)}")
             checks.append(("params", len(lines) - 1, [calc.dEF, calc.EFmin, calc.EFmax, calc.nEF_extra], case))
@@ -213,9 +256,11 @@ def corr(ctx):
                     w = Fr(1) if sel is None else Fr(sum(1 for s_ in sel if a <= s_ < b), b - a)
                     items.append(f"{'-inf' if e == -np.inf else rat(e)}:{rat(value(ik, a, b) * w)}")
                 gk.append(",".join(items) if items else "-inf:0")   # an empty k-point = one group of value 0
-            lines.append(f"{'res' if kres else 'unres'} {fder} {rats(Ef)} {';'.join(gk)}")
+            lines.append(f"{'fullres' if kres else 'full'} {rat(cf)} {rat(vol)} {int(hole)} {int(usef)} {fder} {rats(Ef)} "
+                         f"{';'.join(gk)}")
             checks.append(("call", len(lines) - 1, got, dict(case, ndim=ndim, kres=kres)))
-            ctx.count(f"corr.call.fder{fder}.{'kres' if kres else 'unres'}.{'add' if additive else 'nonadd'}")
+            ctx.count(f"corr.call.fder{fder}.{'kres' if kres else 'unres'}.{'add' if additive else 'nonadd'}"
+                      f"{'.hole' if hole else ''}{'' if usef else '.signonly'}")
 
     out = ctx.lean(lines)
     for kind, idx, got, case in checks:
@@ -369,7 +414,7 @@ def systems_oracle(ctx, scale):
     rng = ctx.rng
     rs = np.random.RandomState(rng.getrandbits(31))
     User = make_user_formula()
-    nsys = ctx.n(5, 40) * scale
+    nsys = ctx.n(3, 40) * scale
     for isys in range(nsys):
         nw = int(rs.randint(1, 5))
         doubled = rng.random() < 0.4
@@ -395,7 +440,74 @@ def systems_oracle(ctx, scale):
             ctx.fail("band energies of Data_K differ from the direct Fourier sum (k-point set of the FFT grid)", sysinfo)
             continue
         lo, hi = Eall.min(), Eall.max()
-        for rep in range(ctx.n(6, 20)):
+
+        def fresh():
+            with quiet():
+                return get_data_k_class_from_system(s)(s, grid=grid, dK=np.array(dK),
+                                                       Kpoint=grid.get_K_list(use_symmetry=False)[0])
+
+        # ---------- 0. several calculators sharing one Data_K: the result of each must not depend on the others
+        Ef, dEF, mode = gen_fermi(rng, lo, hi)
+        th = rng.choice([1e-4, 0.05])
+        ext = ext_grid(Ef, dEF, 1)
+        case = dict(sysinfo, Efermi=Ef, degen_thresh=th, what="DOS(Ef) and CumDOS(Ef padded by one step) on one Data_K")
+        with ctx.attempt("calculators sharing one Data_K, both orders", case):
+            with quiet():
+                dA = fresh()
+                dosA = st.DOS(Efermi=Ef, degen_thresh=th)(dA).data           # surface first ...
+                cumA = st.CumDOS(Efermi=ext, degen_thresh=th)(dA).data        # ... then sea with the same window
+                dB = fresh()
+                cumB = st.CumDOS(Efermi=ext, degen_thresh=th)(dB).data
+                dosB = st.DOS(Efermi=Ef, degen_thresh=th)(dB).data
+                cumC = st.CumDOS(Efermi=ext, degen_thresh=th)(fresh()).data   # alone
+                dosC = st.DOS(Efermi=Ef, degen_thresh=th)(fresh()).data
+            ctx.case(signature=("orders", isys, tuple(Ef), th), nontrivial=bool(np.any(Eall < ext[0])))
+            ctx.count("oracle.shared_data_k.both_orders")
+            if not (np.array_equal(cumA, cumC) and np.array_equal(cumB, cumC)):
+                ctx.fail(f"CumDOS depends on the calculators evaluated before it on the same Data_K: after DOS "
+                         f"{cumA.tolist()}, before DOS {cumB.tolist()}, alone {cumC.tolist()}", case)
+            if not (np.array_equal(dosA, dosC) and np.array_equal(dosB, dosC)):
+                ctx.fail(f"DOS depends on the calculators evaluated before it on the same Data_K: {dosA.tolist()} / "
+                         f"{dosB.tolist()} / alone {dosC.tolist()}", case)
+        # ---------- 0b. overall scalars and the hole-like flag (Identity formula: the k-average of a state count)
+        vol = abs(np.linalg.det(s.real_lattice))
+        cfac = rng.choice([1.0, -2.0, 0.37, 12.5])
+        case = dict(sysinfo, Efermi=Ef, degen_thresh=th, constant_factor=cfac)
+        with ctx.attempt("constant_factor / cell_volume / hole_like", case):
+            with quiet():
+                kw = dict(Efermi=Ef, Formula=frml.Identity, degen_thresh=th)
+                r0 = StaticCalculator(fder=0, constant_factor=cfac, **kw)(dk).data
+                rs_ = StaticCalculator(fder=0, constant_factor=cfac, use_factor=False, **kw)(dk).data
+                rh = StaticCalculator(fder=0, constant_factor=cfac, hole_like=True, **kw)(dk).data
+                r1 = StaticCalculator(fder=1, constant_factor=cfac, **kw)(dk).data
+                r1h = StaticCalculator(fder=1, constant_factor=cfac, hole_like=True, **kw)(dk).data
+            cnt = [sea_count(Eall, th, x) for x in Ef]
+            ctx.case(signature=("scalars", isys, tuple(Ef), th, cfac), nontrivial=True)
+            ctx.count("oracle.scalars")
+            for j, (c_, margin) in enumerate(cnt):
+                if margin > 1e-9 and abs(r0[j] - cfac * c_ / vol) > 1e-12 * (1 + NB) * abs(cfac) / vol:
+                    ctx.fail(f"Fermi-sea result {r0[j]!r} != constant_factor * (k-average of the state count) / cell_volume"
+                             f" = {cfac * c_ / vol!r}", case)
+                    break
+                if margin > 1e-9 and abs(rs_[j] - np.sign(cfac) * c_ / vol) > 1e-12 * (1 + NB) / vol:
+                    ctx.fail(f"use_factor=False: {rs_[j]!r} != sign(constant_factor) * count / cell_volume", case)
+                    break
+            if not np.array_equal(rh, -r0):
+                ctx.fail(f"hole_like Fermi-sea result (no tetrahedra) is not minus the electron-like one: {rh.tolist()} vs "
+                         f"{r0.tolist()}", case)
+            if not np.array_equal(r1, r1h):
+                ctx.fail("hole_like changes a Fermi-surface (fder=1) result", case)
+        # ---------- 0c. information only: non-uniform grids are OUTSIDE the property (the code assumes a uniform grid)
+        if isys == 0:
+            with quiet():
+                Enu = np.array([lo - 1.0, lo - 0.9, hi + 1.0])
+                cnu = st.CumDOS(Efermi=Enu)(dk).data
+            ctx.note(f"non-uniform Fermi grid (outside the property, uniform grids only): Efermi={Enu.tolist()} gives "
+                     f"CumDOS={cnu.tolist()} although all {NB} bands lie below the last level: the code bins with "
+                     f"dEF=Efermi[1]-Efermi[0]")
+            ctx.count("oracle.info.nonuniform_grid_probe")
+
+        for rep in range(ctx.n(5, 20)):
             Ef, dEF, mode = gen_fermi(rng, lo, hi)
             th = rng.choice([1e-8, 1e-4, 1e-4, 0.05, 0.3])
             kr = doubled and rng.random() < 0.3
@@ -502,13 +614,15 @@ def systems_oracle(ctx, scale):
                 ext = ext_grid(Ef, dEF, 1)
                 with quiet():
                     g = wb.Grid(s, NK=NK, NKFFT=[rng.choice([d for d in (1, 2, 3) if n % d == 0]) for n in NK])
+                    # dict order = evaluation order on every Data_K: the surface calculators come FIRST, then the sea
+                    # calculators whose window [Ef[0]-dE, Ef[-1]+dE] is the same
                     res = wb.run(s, g, calculators={
-                        "cum": st.CumDOS(Efermi=Ef, degen_thresh=th),
-                        "cumx": st.CumDOS(Efermi=ext, degen_thresh=th),
                         "dos": st.DOS(Efermi=Ef, degen_thresh=th),
-                        "ahcx": st.AHC(Efermi=ext, degen_thresh=th),
                         "ahc1": StaticCalculator(Efermi=Ef, Formula=frml.Omega, fder=1, constant_factor=factors.factor_ahc,
-                                                 degen_thresh=th)},
+                                                 degen_thresh=th),
+                        "cumx": st.CumDOS(Efermi=ext, degen_thresh=th),
+                        "ahcx": st.AHC(Efermi=ext, degen_thresh=th),
+                        "cum": st.CumDOS(Efermi=Ef, degen_thresh=th)},
                         parallel=False, use_irred_kpt=False, symmetrize=False, print_Kpoints=False, adpt_num_iter=0,
                     fout_name=os.path.join(ctx.work, "result"))
                 kk = [np.array([i / NK[0], j / NK[1], l / NK[2]]) for i in range(NK[0]) for j in range(NK[1])
@@ -521,6 +635,13 @@ def systems_oracle(ctx, scale):
                     r, margin = sea_count(Eg, th, x)
                     if margin > 1e-9 and abs(cum[j] - r) > 1e-11 * (1 + NB):
                         ctx.fail(f"run(): CumDOS[{j}] = {cum[j]!r}, k-average of the state count = {r!r}", dict(case, cum=cum))
+                        break
+                cumx = res.results["cumx"].data
+                for j, x in enumerate(ext):
+                    r, margin = sea_count(Eg, th, x)
+                    if margin > 1e-9 and abs(cumx[j] - r) > 1e-11 * (1 + NB):
+                        ctx.fail(f"run(): CumDOS on the padded grid (evaluated after DOS on the same Data_K) [{j}] = "
+                                 f"{cumx[j]!r}, k-average of the state count = {r!r}", dict(case, cumx=cumx))
                         break
                 w1 = central_difference(1, res.results["cumx"].data, dEF)
                 if np.abs(res.results["dos"].data - w1).max() > 1e-10 * (1 + NB) / dEF:
@@ -573,8 +694,7 @@ def ties_oracle(ctx, scale):
             continue
         Ef = gen_grid(rng, [sum(E[:2], Fr(0)) / len(E[:2]) for E in Es] + Es[0])
         d = (Ef[1] - Ef[0]) if len(Ef) > 1 else Fr(1, 1000)
-        if len(Ef) == 1:
-            continue      # 0.001 is not dyadic: the single-point grid is exercised by corr and by the float oracle
+        single = len(Ef) == 1   # 0.001 is not dyadic: for a single Fermi level only the Fermi-sea (CumDOS) part is exact
         fk = FakeDK([[float(e) for e in E] for E in Es])
         Ef_f = np.array([float(x) for x in Ef])
         sel = None
@@ -596,6 +716,9 @@ def ties_oracle(ctx, scale):
             if any(abs(float(w) - c) > 1e-12 * (1 + nb) for w, c in zip(want, cum)):
                 ctx.fail(f"CumDOS {cum.tolist()} differs from the k-average of the number of states in groups with mean "
                          f"energy <= Ef {[float(w) for w in want]} (Fermi levels exactly on group energies)", case)
+            if single:
+                ctx.count("oracle.ties.single_level")
+                continue
             ext = [Ef[0] - d] + Ef + [Ef[-1] + d]
             ce = [count(Es, th, x, sel=sel) for x in ext]
             wd = [float((ce[j + 2] - ce[j]) / (2 * d)) for j in range(len(Ef))]
